@@ -461,7 +461,7 @@ def run(ck):
         rp = json.load(open(ck.replay_path))
         cases = [rp["case"]] if "case" in rp else rp.get("cases", [])
     else:
-        n = 16000 if ck.thorough else 1500
+        n = 10000 if ck.thorough else 1500
         cases = [witness_case()]
         # boundaries of the proofs' case splits: 2 and 3 rows per flavour, patch = rows - 1, one category
         for fl in range(4):
@@ -470,14 +470,14 @@ def run(ck):
                     for _ in range(6 if not ck.thorough else 60):
                         cases.append(gen_case(rnd, ck.thorough, {"rows": R, "ncats": nc, "flavour": fl, "team": False,
                                                                   "only": ["X", "X", "M", "C"], "short": False}))
-        for _ in range(150 if not ck.thorough else 4000):
+        for _ in range(150 if not ck.thorough else 2500):
             cases.append(gen_case(rnd, ck.thorough, {"only": ["C", "C", "M", "X", "R"], "team": False,
                                                       "ncats": rnd.choice([2, 3, 4])}))
-        for _ in range(70 if not ck.thorough else 1200):
+        for _ in range(70 if not ck.thorough else 800):
             cases.append(gen_near_case(rnd, ck.thorough))
         # one problem object reused across code / patch lengths: individuals (and teams) mutated through a
         # problem they were not created with
-        nv = 150 if not ck.thorough else 3000
+        nv = 150 if not ck.thorough else 2000
         for _ in range(nv):
             cases.append(gen_case(rnd, ck.thorough, {"vary": True, "team": rnd.random() < 0.25}))
         n += nv
